@@ -432,7 +432,7 @@ func partA(rep *lib.Report) {
 	rnd := lib.Rand("c15-gen")
 	n := 400
 	if lib.Thorough() {
-		n = 6000
+		n = 2500
 	}
 	r := &run{rep: rep}
 	for i := 0; i < n; i++ {
